@@ -56,6 +56,11 @@ HAND = [
     "T 0 G 1 0 ; en ss fi:0:900:900 nx fl:0 nx fi:0:0:0 nx",
     # statistics reported at send time
     "T 0 G 1 0 ; st:5:6:7 en st:1000:2000:3000 ss ok:0:1800:600:0 st:1:2:3 nx",
+    # baselines (Download::start resets them): adjusted = max(total - baseline, 0)
+    "T 0 G 1 0 ; st:1000:2000:3000 bl:400:2500 en ss ok:0:1800:600:0 st:5000:2600:1 nx ok:b:1800:600:0 bl:5000:0 nx",
+    # trackers added while running (insert after start): idle controller re-arms its timer, new tier order
+    "T 0 G 1 1 ; en ss fl:0 in:0 nx nx fl:b in:2 nx ok:b:1800:600:0 in:1 nx",
+    "T 0 G 0 ; in:3 en in:0 ss ok:b:900:300:0 in:3 nx",
     # unsorted insertion order, sparse tier numbers
     "T 0 G 4 5 0 5 2 ; en ss fl:b fl:b fl:b fl:b nx nx nx nx",
     # tracker disabled while in flight, reply still counted
@@ -152,6 +157,11 @@ def client_stream(r, n):
             ops.append("%s:%d" % (r.choice(("td", "te")), r.randrange(k)))
         elif x < 0.89:
             ops.append("cy:%d" % r.choice(groups + [9]))
+        elif x < 0.897:
+            ops.append("in:%d" % r.choice(groups + [0, max(groups) + 1]))
+            k += 1
+        elif x < 0.905:
+            ops.append("bl:%d:%d" % (r.choice((0, 500000000, 10 ** 9, r.randrange(10 ** 9))), r.choice((0, 500000000, r.randrange(10 ** 9)))))
         elif x < 0.92:
             ops.append("st:%d:%d:%d" % (r.randrange(10 ** 9), r.randrange(10 ** 9), r.randrange(10 ** 12)))
         elif x < 0.95:
@@ -182,8 +192,11 @@ def primitive_stream(r, n):
             ops.append(rand_reply(r, k, pfail))
         elif x < 0.9:
             ops.append(rand_advance(r))
-        elif x < 0.96:
+        elif x < 0.95:
             ops.append("%s:%d" % (r.choice(("td", "te")), r.randrange(k + 1)))
+        elif x < 0.97:
+            ops.append("in:%d" % r.randrange(4))
+            k += 1
         else:
             ops.append("cy:%d" % r.randrange(4))
     return groups, ops
@@ -236,7 +249,7 @@ def line(groups, ops, t0=0):
     return "T %d G %d %s ; %s" % (t0, len(groups), " ".join(map(str, groups)), " ".join(ops))
 
 
-EX_ALPHA = ["ST", "ss", "SP", "sc", "mr", "rq", "fl:b", "ok:b:600:3000:0", "nx", "td:0"]
+EX_ALPHA = ["ST", "ss", "SP", "sc", "mr", "rq", "fl:b", "ok:b:600:3000:0", "nx", "td:0", "in:0"]
 
 
 def gen(seed, tier):
